@@ -8,7 +8,7 @@ from ..guards import enclosing_withs, guards_of
 from ..load import AnalysisError, FuncInfo, Names, chain, norm, own_nodes, parent
 from ..norm import guard_atoms
 from .c05 import node_calls
-from .common import calls_named, fkey, trees, where
+from .common import calls_named, effective_body, fkey, trees, where
 from .lf import call_sink, loops_of, passthrough, split_lossless
 
 
@@ -96,7 +96,7 @@ def run(ctx: Context) -> None:
             es = [norm(k.value) for k in c.keywords if k.arg == "end_stream"]
             esrc = [norm(a) for k in c.keywords if k.arg == "end_stream" for a in ctx.prov.expand(k.value, s2, c)]
             body = h2.methods["_send_request_body"]
-            first = next((s for s in body.node.body if not (isinstance(s, ast.Expr) and isinstance(s.value, ast.Constant))), None)
+            first = next(iter(effective_body(body.node.body)), None)
             early = isinstance(first, ast.If) and norm(first.test) == "nothas_body_headers(request)" and len(first.body) == 1 and isinstance(first.body[0], ast.Return)
             rep.ob("C03.R4", fkey(tree, s2, "end-stream-agreement"), esrc == ["nothas_body_headers(request)"] and early, where(s2, c),
                    f"END_STREAM <- {esrc}; body routine returns early on the same predicate: {early}" + ("" if esrc == ["nothas_body_headers(request)"] and early else " - data on a closed stream or a stream that is never ended"))
